@@ -984,9 +984,12 @@ func probeKey(reg hrpc.RegionInfo) []byte {
 	// now we create a probe key: reg.StartKey() + 17 zeros
 	probe := make([]byte, len(reg.StartKey())+17)
 	copy(probe, reg.StartKey())
-	if stop := reg.StopKey(); len(stop) != 0 && bytes.Compare(probe, stop) >= 0 {
+	if stop := reg.StopKey(); len(stop) != 0 && len(stop) <= len(probe) &&
+		bytes.Compare(probe, stop) >= 0 {
 		// a tiny region, the stop key is the start key and up to 17
-		// zeros: take the last key before it
+		// zeros: take the last key before it. (A longer stop key that
+		// sorts before the probe is below the start key: hbase:meta
+		// is confused, any key will do.)
 		probe = probe[:len(stop)-1]
 	}
 	return probe
